@@ -5,7 +5,7 @@
 -/
 import SymfcModel.Model.Cutoff
 import SymfcModel.Gen.Cutoff
-import SymfcModel.Gen.Api
+import SymfcModel.Gen.ApiCompute
 import SymfcModel.Lemmas.Cutoff
 import SymfcModel.Lemmas.Coverage
 namespace Symfc.C07
